@@ -171,6 +171,24 @@ def run(ctx: Ctx) -> Result:
                 if (ox.split(' ')[0] == 'T') != wantx:
                     B.viol(f'{what_} (chain of {n}) with a signature extension installed that ' + ('only logs' if wantx else 'raises'),
                            {'root_seed': root.hex(), 'cfg': cfgx.line(), 'cache': vmrun.cache_str(cache, False), 'scripts': [w_.bytes.hex(), l_.bytes.hex()]}, wantx, ox[:80])
+        # a verifier that supplies no timestamp gets the clock of THAT validation - also when it reuses its context dict: a certificate
+        # accepted inside its window is refused once the clock has passed the window's end
+        if it % 3 == 0:
+            try:
+                with B.pinned():
+                    cwin = T.make_delegate_key_cert(root, pks[0], now - 100, now + 2, True)
+                    wwin = T.make_delegate_key_witness(seeds[0], cwin, dict(sf), flags)
+                ctxd = dict(sf); hist = []
+                for now_ in (now, now + 1, now + 2, now + 10):
+                    with vmrun.Env(vmrun.Cfg(now=now_)) as env:
+                        try: hist.append(env.F.run_auth_scripts([wwin.bytes, lock1.bytes], ctxd))
+                        except BaseException as e: hist.append('RAISED:' + type(e).__name__)
+                res.note_case(('clock-history', root, flags))
+                if hist != [True, True, False, False]:
+                    B.viol('single delegate lock, window [now-100, now+2), validated with no timestamp supplied at clock now, now+1, now+2, now+10 with one context dict', {'root_seed': root.hex(), 'scripts': [wwin.bytes.hex(), lock1.bytes.hex()], 'cache': vmrun.cache_str(sf, False), 'context_after': sorted(map(str, ctxd))}, [True, True, False, False], hist)
+            except BaseException as e:
+                if isinstance(e, (KeyboardInterrupt, SystemExit)): raise
+                res.notes.append('clock-history probe could not run: ' + type(e).__name__ + ' ' + str(e)[:100])
         # a witness that defines function 0 itself: the lock's own `def 0` must be the one that runs
         squat = T.Script.from_src(rng.choice(['def 0 { pop0 true }', 'def 0 { true }', 'def 0 { pop0 pop0 true }'])).bytes
         ok, v = B.auth([squat, lockc.bytes], cache)
